@@ -77,6 +77,8 @@ CFG = {
                   CasExp=["abs", "b"], CasNew=["b"], TtlKeys=["KAF"], MaxLen=3, MaxChunk=2, MaxCrash=2, MaxCkpt=1),
     # C16: snapshot at every point with retained in {1,2}, applies between generation and install, install into a
     # fresh instance, replay of the entries above the installed boundary
+    "snap-2": C(Feat=["Snap", "Each"], UseKeys=["KA"], PutVals=["e", "a"], CasKeys=["KA"], CasExp=["abs", "b"], CasNew=["a", "b"],
+                MaxLen=2, MaxChunk=2, Retained=[1, 2]),
     "snap-3": C(Feat=["Snap", "Each"], UseKeys=["KA"], PutVals=["e", "a"], CasKeys=["KA"], CasExp=["abs", "b"], CasNew=["a", "b"],
                 MaxLen=3, MaxChunk=2, Retained=[1, 2]),
     "snap-4": C(Feat=["Snap"], UseKeys=["KA", "KAF"], PutVals=["a"], CasKeys=["KA"], CasExp=["abs", "b"], CasNew=["a", "b"],
@@ -104,15 +106,15 @@ INV = {
 PROPS = {
     # sample: behaviours replayed per engine (0 = all enumerated behaviours); a RocksDB open costs ~100 ms here
     "C22": dict(cfgs={"quick": ["cas-3", "keys-3"], "thorough": ["cas-3", "cas-4", "cas2k-3", "keys-3", "keys-4"]},
-                sample={"quick": {"file": 1500, "rocks": 1000}, "thorough": {"file": 0, "rocks": 0}}),
+                sample={"quick": {"file": 1200, "rocks": 800}, "thorough": {"file": 0, "rocks": 30000}}),
     "C15": dict(cfgs={"quick": ["crash-2"], "thorough": ["crash-2", "crash-3", "crash2-3"]},
-                sample={"quick": {"file": 1500, "rocks": 250}, "thorough": {"file": 60000, "rocks": 6000}}),
-    "C16": dict(cfgs={"quick": ["snap-3"], "thorough": ["snap-3", "snap-4"]},
-                sample={"quick": {"file": 1200, "rocks": 150}, "thorough": {"file": 0, "rocks": 5000}}),
+                sample={"quick": {"file": 900, "rocks": 110}, "thorough": {"file": 45000, "rocks": 3000}}),
+    "C16": dict(cfgs={"quick": ["snap-2"], "thorough": ["snap-2", "snap-3", "snap-4"]},
+                sample={"quick": {"file": 800, "rocks": 100}, "thorough": {"file": 30000, "rocks": 3000}}),
     "C23": dict(cfgs={"quick": ["ttl-w", "ttl-r", "ttl-s"], "thorough": ["ttl-w", "ttl-r", "ttl-s", "ttl-w2"]},
-                sample={"quick": {"file": 360, "rocks": 90}, "thorough": {"file": 0, "rocks": 1200}}, jobs=24),
+                sample={"quick": {"file": 270, "rocks": 60}, "thorough": {"file": 0, "rocks": 900}}, jobs=24),
     "C25": dict(cfgs={"quick": ["scanc-2"], "thorough": ["scanc-2", "scanc-3", "keys-4"]},
-                sample={"quick": {"file": 1200, "rocks": 800}, "thorough": {"file": 0, "rocks": 0}}),
+                sample={"quick": {"file": 900, "rocks": 500}, "thorough": {"file": 0, "rocks": 12000}}),
 }
 
 _TEXT = ("TLC model-checks the focused configuration of KV.tla (engine write steps as actions, repaired design) for "
